@@ -2,12 +2,16 @@
 
 Explicit-state exploration on the real implementation (level model_checking):
 
-  * content alphabet {a (1 byte), e-acute (2), euro (3), U+1F600 (4)}; every content of length <= 3 (quick) / 4 (thorough)
-  * initial states = every content x every construction route (ROUTES below, 15 routes)
-  * from every state EVERY operation of the alphabet OPS with EVERY argument choice in range is applied
-    (string-set!, string-fill!, string-copy! incl. source = target, substring, string-copy, string-append,
-    list/vector/utf8 round trips with ranges, symbol round trip, string ports, cursors, string-ref, comparisons,
-    and the chibi-specific (chibi ast) immutable-string, which exercises the copy-on-write branch of string-set!)
+  * content alphabet {a (1 byte), U+E9 (2), U+20AC (3), U+1F600 (4)}; every content of length <= 3 (quick) / 4 (thorough)
+  * initial states = every content x every construction route (ROUTES below: 13 standard routes + 2 routes through
+    (chibi io) utf8->string!, which shares a bytevector at an offset)
+  * from every state EVERY operation of OPNAME with EVERY argument choice in range is applied (ops_for):
+    string-set!, string-fill!, string-copy! incl. source = target, substring, string-copy, string-append (results of
+    at most nmax+2 characters), list/vector/utf8 round trips with ranges, symbol round trip, string ports
+    (write-string, write-char, display, read-char, peek-char, read-string, read-line, a real file), cursors,
+    string-ref, comparisons, and (chibi ast) immutable-string, which exercises the copy-on-write branch of string-set!.
+    Characters written are the content alphabet plus one same-width alternate per width, so that in-place writes
+    change the content; successors holding an alternate are checked but not expanded (symmetry reduction).
   * all histories of length <= 2 (quick) / 3 (thorough); level-synchronous BFS: every initial state is
     expanded (no de-duplication at depth 0); deeper states are de-duplicated on the key
         (code points, byte length, byte-store length, offset, immutable flag, producer class)
@@ -19,10 +23,16 @@ Explicit-state exploration on the real implementation (level model_checking):
     Python compares with the list-of-code-points model (mc/models/ustring.py), checks the bytes are the
     well-formed UTF-8 encoding of exactly those code points, and that mutating a literal raises and leaves it alone.
   * the exhaustive scalar loop: all 1 112 064 scalar values through char -> string -> utf8 -> string -> char,
-    string-set! with a width change, and a string port, against an arithmetic encoder written in Scheme with
-    fixnum arithmetic, plus a rolling checksum per 4096-block recomputed in Python.
-  * everything runs on the `asan` variant with VERIF_POISON=1 (heap slack and free chunks poisoned); any
-    AddressSanitizer report / signal / early exit is a violation.  The scalar loop also runs on `opt`.
+    string-set! with a width change, make-string and a string port, against an arithmetic encoder written in Scheme
+    with fixnum arithmetic, plus a rolling checksum per 4096-block recomputed in Python (opt and asan).
+  * all triples over the 21 contents of length <= 2 for transitivity / variadic forms of string<? etc.
+  * histories run on the `asan` variant with VERIF_POISON=1 (heap slack and free chunks poisoned), ASan in recover
+    mode; any AddressSanitizer report / signal / early exit is a violation.
+
+Mutation adequacy was checked once by hand on a private copy of /repo (quick tier): memcpy tail length off by one in
+sexp_string_utf8_set, sexp_utf8_initial_byte_count returning 3 for 4-byte leads, string-copy! direction test inverted,
+copy-on-write test dropped from sexp_string_utf8_set -- each produced thousands of violations on the standard routes.
+Candidate defects found on the unmodified tree: mc/props/c12.NOTES.md.
 """
 import os, sys, time, shutil, itertools, re
 from multiprocessing import Pool
@@ -1215,7 +1225,7 @@ def main(tier, replay_path=None):
         v["kind"] = "mismatch"
         vgroups["mismatch | %s | %s | %s" % (v["op"], v.get("route", "")[:14], v.get("why", "")[:60])] += 1
         note = ""
-        if op and viol_seen[gkey] <= 2:
+        if op and viol_seen[gkey] <= 1 and sum(1 for g in viol_seen) <= 16:
             # README rule 4: re-run the failing history alone in a fresh process
             v["alone"] = rerun_alone(full_h, contents_tab, lmax)
             note = "re-run alone in a fresh process: " + v["alone"]
@@ -1286,6 +1296,7 @@ def main(tier, replay_path=None):
     sample_hist = []
     stop = False
     lost_total = 0
+    worker_pids = set()
     for level in range(1, depth + 1):
         _G.update(contents=contents_tab, lmax=lmax, known=known)
         if level == 1:
@@ -1296,19 +1307,23 @@ def main(tier, replay_path=None):
                         known.add(key)
                     chk.cov["driver_processes"] = chk.cov.get("driver_processes", 0) + res["runs"]
             log("C12: %d initial states observed, %d distinct keys" % (len(frontier), len(known)))
-        # cost-balanced chunks: about 25k transitions per process
+        # cost-balanced chunks: at least ~5 jobs per worker, at most ~25k transitions per process; states on the
+        # utf8->string! routes are about 10x more expensive while defect D1 (c12.NOTES.md) is present, they go first
+        def cost_of(h):
+            n = len(model_pre(h[0], contents_tab[h[1]], h[2])[0])
+            return (40 + 24 * (n + 1) * (n + 2)) * (10 if h[0] in (R_SHARED_OFF, R_SHARED_0) else 1)
+        costs = [(cost_of(h), h) for h in frontier]
+        target = max(3000, min(25000, sum(c for c, _ in costs) // (5 * common.NCPU)))
         jobs = []
         cur, cost = [], 0
-        for h in frontier:
-            n = len(model_pre(h[0], contents_tab[h[1]], h[2])[0])
+        for c, h in sorted(costs, key=lambda ch: (-(ch[1][0] in (R_SHARED_OFF, R_SHARED_0)), -ch[0])):
             cur.append(h)
-            cost += 40 + 22 * (n + 1) * (n + 2)
-            if cost >= 25000:
+            cost += c
+            if cost >= target:
                 jobs.append(("hist", "asan", cur, False))
                 cur, cost = [], 0
         if cur:
             jobs.append(("hist", "asan", cur, False))
-        jobs.reverse()      # long strings (expensive) first
         njobs = len(jobs)
         if level == 1:
             jobs = jobs + side_jobs
@@ -1318,6 +1333,7 @@ def main(tier, replay_path=None):
         lvl_states = 0
         done_jobs = 0
         with Pool(common.NCPU) as pool:
+            worker_pids.update(pr.pid for pr in getattr(pool, "_pool", []))
             for kind, res in pool.imap_unordered(dispatch, jobs):
                 if kind == "scalar":
                     on_scalar(res)
@@ -1426,6 +1442,11 @@ def main(tier, replay_path=None):
     chk.sample("scalar loop: for every scalar cp: (string->utf8 (string (integer->char cp))) = arithmetic encoding, "
                "utf8->string/string-ref/string-set! with width change/make-string/string port round trips")
     common.cleanup_scratch()
+    if os.path.isdir(common.SCRATCH_ROOT):      # directories of workers that were terminated at the deadline
+        for f in os.listdir(common.SCRATCH_ROOT):
+            m = re.match(r"c12[a-z]?-(\d+)-\d+$", f)
+            if m and int(m.group(1)) in worker_pids:
+                shutil.rmtree(os.path.join(common.SCRATCH_ROOT, f), ignore_errors=True)
     return chk.finish()
 
 
